@@ -214,6 +214,18 @@ succeeded(const char *phase, pid_t pid, int status)
 	return false;
 }
 
+/* temporary objects created for the link step */
+static struct array tmpfiles;
+
+static void
+rmtmpfiles(void)
+{
+	char **name;
+
+	arrayforeach (&tmpfiles, name)
+		unlink(*name);
+}
+
 static void
 buildobj(struct input *input, char *output)
 {
@@ -234,6 +246,7 @@ buildobj(struct input *input, char *output)
 		if (fd < 0)
 			fatal("mkstemp:");
 		close(fd);
+		arrayaddptr(&tmpfiles, output);
 	} else if (output) {
 		if (strcmp(output, "-") == 0)
 			output = NULL;
@@ -289,6 +302,7 @@ kill:
 	if (!success) {
 		if (output)
 			unlink(output);
+		rmtmpfiles();
 		exit(1);
 	}
 }
@@ -315,14 +329,13 @@ buildexe(struct input *inputs, size_t ninputs, char *output)
 	arrayaddptr(&s->cmd, NULL);
 
 	ret = spawn(&pid, &s->cmd, NULL);
-	if (ret)
-		fatal("%s: spawn \"%s\": %s", s->name, *(char **)s->cmd.val, strerror(errno));
+	if (ret) {
+		rmtmpfiles();
+		fatal("%s: spawn \"%s\": %s", s->name, *(char **)s->cmd.val, strerror(ret));
+	}
 	if (waitpid(pid, &status, 0) < 0)
 		fatal("waitpid %ju:", (uintmax_t)pid);
-	for (i = 0; i < ninputs; ++i) {
-		if (inputs[i].filetype != OBJ)
-			unlink(inputs[i].name);
-	}
+	rmtmpfiles();
 	exit(!succeeded(s->name, pid, status));
 }
 
